@@ -28,7 +28,7 @@ add("C01", "other",
     "strategies, the x-op-x shortcut, unary minus as -1*x) run by the VM model from any state leaves exactly Sem's value where "
     "the operand says, keeps the stack below, and raises the same error class; through ByteCode/load/Run and run_tree the "
     "result equals Sem's, the stack pointer, globals and output are as before. Over histories (ExprAssign/ExprSession.v): in "
-    "every session of expression statements and assignments g = e of pure expressions to globals (g = g + 1 is the INC "
+    "every session of expression statements and assignments g = e of pure expressions to globals (g = g + 1 and g = 1 + g are the INC "
     "instruction), failing statements included, each statement gives Sem's value or error class, binds Sem's globals, writes "
     "nothing and leaves the machine ready for the next (C01_simple_sessions_partial). And the whole while-language over "
     "globals (StmtSem/StmtVM/StmtCorrect/StmtTop.v): blocks, if, if/else and while with pure conditions, nested without bound, "
@@ -36,7 +36,7 @@ add("C01", "other",
     "folding, jumps and back-patching, the last-value slot of a value-position while): for every fuel for which the fuelled "
     "semantics ssem - which Sem.eval computes with the same fuel - defines a statement, the compiled code run by the VM model "
     "ends with that value or error class and those globals, in REPL mode and file mode, over whole sessions "
-    "(C01_statement_sessions_partial). Not proved: the simulation for calls, generators, locals/closures, output, g = 1 + g "
+    "(C01_statement_sessions_partial). Not proved: the simulation for calls, generators, locals/closures, output "
     "(full statement: C01_compile_correct_statement). The property is "
     "decided each run by differential testing: generated sessions are run on the real code and compared, inside Coq, with Sem "
     "(property oracle) and with the compiler/VM model (correspondence; bytecode-level agreement of the compiler model was "
